@@ -28,6 +28,15 @@ static std::string validGrid(const std::vector<double>& rad, const std::vector<d
     for (int j = 1; j <= nt; j++)
         if (!(ang[j] > ang[j - 1]))
             return "angles not strictly increasing";
+    // every angle has its antipodal partner (also for grids loaded from files; tolerance far above the constructor's own)
+    for (int j = 0; j < nt; j++) {
+        const double want = ang[j] < M_PI ? ang[j] + M_PI : ang[j] - M_PI;
+        bool found        = false;
+        for (int k = 0; k <= nt && !found; k++)
+            found = std::fabs(ang[k] - want) <= 1e-9;
+        if (!found)
+            return "angle " + std::to_string(j) + " has no antipodal partner";
+    }
     if (parametric) {
         if (rad.front() != R0)
             return "first radius is not exactly R0";
@@ -201,8 +210,36 @@ static Outcome runCase(const KV& c)
         const std::string fr = tmpBase() + "_r.txt", ft = tmpBase() + "_t.txt";
         std::remove(fr.c_str());
         std::remove(ft.c_str());
-        if (fileMode == 1 || fileMode == 4 || fileMode == 5)
+        if (fileMode == 1 || fileMode == 4 || fileMode == 5 || fileMode == 6)
             g->writeToFile(fr, ft, precision);
+        if (fileMode == 6) {
+            // structured damage of the angle file: a line inserted into (or deleted from) one half turn only - the loaded
+            // grid, if accepted, must still pass the validity predicate (every angle has its antipodal partner)
+            Rnd r(mutSeed);
+            std::ifstream in(ft);
+            std::vector<std::string> lines;
+            std::string t;
+            while (std::getline(in, t))
+                if (!t.empty())
+                    lines.push_back(t);
+            in.close();
+            const int nl = (int)lines.size();
+            if (nl >= 5) {
+                const int half = (nl - 1) / 2;
+                const bool second = r.irange(0, 1) == 1;
+                const int j = (second ? half : 0) + r.irange(1, std::max(1, half - 1));
+                if (r.irange(0, 1) == 0 && j + 1 < nl) {
+                    char buf[64];
+                    snprintf(buf, sizeof buf, "%.17g", 0.5 * (std::strtod(lines[j].c_str(), nullptr) + std::strtod(lines[j + 1].c_str(), nullptr)));
+                    lines.insert(lines.begin() + j + 1, buf);
+                }
+                else
+                    lines.erase(lines.begin() + j);
+                std::ofstream out(ft, std::ios::trunc);
+                for (auto& l : lines)
+                    out << l << "\n";
+            }
+        }
         std::unique_ptr<PolarGrid> asWritten;
         if (fileMode == 5) {
             // The files are lists of numbers separated by white space. The same numbers in another layout (several per
@@ -381,7 +418,7 @@ static KV genCase()
     c.putI("div", div);
     c.putD("refinement", refinement);
     c.putI("max_levels", rpick({-1, -1, 0, 1, 2, 3, 4, 6}));
-    c.putI("file_mode", rweighted({4, 3, 1, 1, 3, 2}));
+    c.putI("file_mode", rweighted({4, 3, 1, 1, 3, 2, 2}));
     c.putI("precision", rpick({12, 13, 14, 15, 16, 18, 18}));
     c.putU("mut_seed", rseed());
     return c;
